@@ -447,7 +447,9 @@ func TestVF_C08_Rapid(t *testing.T) {
 	st := vfshared.NewStats("C08", part, c08Rule)
 	defer st.Flush()
 	run := func(tt interface{ Fatalf(string, ...any) }, c c08Case) {
+		stop := vfLockWatchdog(st, "C08", part, c, 60*time.Second)
 		res := c08Run(t, c)
+		stop()
 		if res.viol != "" {
 			p := vfshared.WriteReplay("C08", part, c)
 			st.Violation(p, res.viol)
